@@ -94,13 +94,14 @@ def run_bulk(v, pid, wd, thorough):
                 jobs += [("http", "upsocks4", 16 * MB, 16 * MB, 2.0), ("socks5", "uphttp", 12 * MB, 1, 2.5)]
             jobs += [(["http", "socks5", "socks4"][k % 3], "direct", 512 * 1024 + k, 300 * 1024 + k, 0.2) for k in range(8)]
             # receivers that stay slow to the very end: the proxy still holds data when the sender's FIN arrives
-            # (read size, pause per read, SO_RCVBUF of the receiver); with these the tail of a transfer was lost by the original splice loop
-            grid = [(65536, 0.001, 262144), (262144, 0.001, 16384), (262144, 0.01, 16384), (16384, 0.001, 16384), (16384, 0.003, 262144), (65536, 0.003, 4 * MB)]
-            # the tail loss of the original splice loop showed in about one such tunnel in ten: many of them where it matters
-            nslow = (72 if thorough else 36) if splice else 8
+            # receivers that stay slow to the very end (read size, pause per read, SO_RCVBUF drawn like the search that found the
+            # defect): the original splice loop lost the tail of about one such transfer in ten
+            rs = random.Random(7)
+            nslow = (72 if thorough else 36) if splice else 6
             for k in range(nslow):
-                up = k % 2 == 0
-                jobs.append((["http", "socks5", "socks4"][k % 3], "direct" if k % 6 else "uphttp", 8 * MB if up else 0, 0 if up else 8 * MB, 0.0, grid[k % len(grid)]))
+                up = k % 4 != 3
+                slow = (rs.choice([16384, 65536, 262144]), rs.choice([0.001, 0.003, 0.01, 0.03]), rs.choice([16384, 262144, 4 * MB]))
+                jobs.append((["http", "socks5"][k % 2], "direct", 8 * MB if up else 0, 0 if up else 8 * MB, 0.0, slow))
         else:
             jobs += [("http", "direct", 40000, 30000, 0.3), ("socks5", "direct", 20000, 50000, 0.0)]
         out = []
@@ -117,10 +118,10 @@ def run_bulk(v, pid, wd, thorough):
                 out.append(r)
             org.close()
         ths = [threading.Thread(target=job, args=(k, j)) for k, j in enumerate(jobs)]
-        for b in range(0, len(ths), 14):         # batches: the slow receivers must not starve each other
-            for t in ths[b:b + 14]:
+        for b in range(0, len(ths), 12):         # batches: the slow receivers must not starve each other
+            for t in ths[b:b + 12]:
                 t.start()
-            for t in ths[b:b + 14]:
+            for t in ths[b:b + 12]:
                 t.join()
         # upstream proxies whose success reply arrives in pieces / with payload glued behind it (sequential: the policy goes by arrival order)
         for fk, (up, f) in enumerate(fakes.items()):
